@@ -19,6 +19,10 @@ func (vc *VC) safety(pos token.Pos, pc, kind, goal, what string) {
 	if goal == "true" {
 		return
 	}
+	if vc.con != nil && vc.con.NoSafety != "" {
+		vc.assum[fmt.Sprintf("run-time safety (bounds, nil, conversions) of %s is NOT checked: %s", vc.fn.String(), vc.con.NoSafety)] = true
+		return
+	}
 	if vc.mode == Math && vc.bitsTwin() {
 		// the same function also has a bit-precise contract: run-time safety is decided there, over machine integers
 		return
@@ -257,6 +261,7 @@ func (f *Frame) backEdge(li *loopInfo, from *ssa.BasicBlock, pc string, st *Stat
 func (f *Frame) havocLoop(li *loopInfo, st *State, pc string) {
 	vc := f.vc
 	e := newEffects()
+	e.KeepAllocs = true
 	var blocks []*ssa.BasicBlock
 	for b := range li.blocks {
 		blocks = append(blocks, b)
@@ -295,6 +300,9 @@ func (f *Frame) havocLoop(li *loopInfo, st *State, pc string) {
 		}
 		p := f.rootPtr(r)
 		if p == nil {
+			if r.kind == "alloc" {
+				continue // a local created inside the loop body: fresh in every iteration
+			}
 			vc.unsupported(li.head.Instrs[0].Pos(), "loop writes through unresolved root %s", r)
 			continue
 		}
@@ -494,7 +502,10 @@ func (f *Frame) exec(ins ssa.Instruction, pc string, st *State) {
 		if arr, isArr := elem.Underlying().(*types.Array); isArr && x.Referrers() != nil {
 			for _, r := range *x.Referrers() {
 				if sl, ok := r.(*ssa.Slice); ok && sl.X == x {
-					f.link(st, f.vals[x].P, arr.Elem())
+					l := f.link(st, f.vals[x].P, arr.Elem())
+					if x.Comment == "slicelit" || x.Comment == "makeslice" {
+						l.heap = true
+					}
 					break
 				}
 			}
